@@ -45,6 +45,8 @@ def run(chk):
     r = fncommon.run_fn(chk, "rp", "RecordPoolTrace", "RecordPoolTrace.cfg", extra_args=["-work", d], max_findings_per_shard=6)
     seen = {}
     for e, txt in r["findings"]:
+        if e.get("obj", 0) > 3000:      # more record objects in one agent run than RecordPoolTrace.cfg has room for (MaxObj): not a verdict
+            raise vlib.Inconclusive("a run used more than MaxObj = 3000 record objects; the trace specification cannot follow it")
         seen.setdefault(klass(e), e)
     if seen:
         # the agent is concurrent: a rejection counts only if the same class of rejection comes back on a second run
